@@ -360,6 +360,7 @@ static void delta_case64(const int64_t* v, int32_t n) {
     st = carquet_delta_decode_int64(e, wr, o, n, &used);
     if (n > 0 && (st != CARQUET_OK || memcmp(o, v, (size_t)n * 8))) v_viol(strcmp(delta_shape64(v, n), "max-width>32") ? "delta64:roundtrip-values:max-width<=32" : "delta64:roundtrip-values:max-width>32", "n=%d status=%d first=%lld", n, st, n ? (long long)v[0] : 0);
     else if (n > 0 && used != wr) v_viol("delta64:consumed-vs-written", "n=%d written=%zu consumed=%zu", n, wr, used);
+    else if (n == 0) { v_count("delta_empty_sequences"); if (st != CARQUET_OK || used != wr) v_viol("delta64:empty-sequence-does-not-round-trip", "encode wrote %zu bytes, decode of them with n=0: status=%d consumed=%zu", wr, st, used); }
     free(o); free(e); free(tmp);
 }
 static void delta_case32(const int32_t* v, int32_t n) {
@@ -371,6 +372,7 @@ static void delta_case32(const int32_t* v, int32_t n) {
     st = carquet_delta_decode_int32(e, wr, o, n, &used);
     if (n > 0 && (st != CARQUET_OK || memcmp(o, v, (size_t)n * 4))) v_viol("delta32:roundtrip-values", "n=%d status=%d", n, st);
     else if (n > 0 && used != wr) v_viol("delta32:consumed-vs-written", "n=%d written=%zu consumed=%zu", n, wr, used);
+    else if (n == 0) { v_count("delta_empty_sequences"); if (st != CARQUET_OK || used != wr) v_viol("delta32:empty-sequence-does-not-round-trip", "encode wrote %zu bytes, decode of them with n=0: status=%d consumed=%zu", wr, st, used); }
     free(o); free(e); free(tmp);
 }
 static void sec_delta(int scale) {
